@@ -1,30 +1,37 @@
 """
 C01 tables, regenerated from the working tree on every run (DESIGN.md 3.1):
 
-  * the four Atom format strings of atoms/atom.py parsed into field specs (alignment, width, precision per field,
-    literal blanks between fields)                                     -> isoFmt / anisFmt / qpeakFmt / fragFmt
-  * the chunk size of FVARs.__str__ (`chunks(self.as_stringlist, 7)`)   -> fvarChunk
-  * the classes of shelx/cards.py (and Atom) whose str() is not the stored text, i.e. that define __str__, or
-    define __repr__ without inheriting a __str__ from Command/Restraint -> strOverrides
-  * the constant U value and the fields Atom.__str__ passes to the Q-peak format -> qpeakUConst
+  * the four layouts Atom.__str__ prints (alignment, width, precision per field, literal blanks between the fields)
+                                                                        -> isoFmt / anisFmt / qpeakFmt / fragFmt
+  * the number of values FVARs.__str__ puts on one line                  -> fvarChunk
+  * the classes of shelx/cards.py (and Atom) whose str() is not the stored text -> strOverrides
+  * the constant U value Atom.__str__ prints for a Q-peak                -> qpeakUConst
+
+They are read BY MEANING (extract/probe_c01.py, run in a separate interpreter that imports the package from the tree
+under test): the values of a probe file are replaced by spies that record the format specification they are printed
+with (whatever way the code spells the formatting), every format string found anywhere in the package is a further
+candidate, and a reading is accepted only if it reproduces `str(atom)` of the unmodified code character by character
+on probe atoms with values of very different lengths. The FVAR chunk is measured; whether a class computes its text
+is decided on an instance that has only the state every card has. Only if that interpreter cannot be used at all (the package does not import) the
+`ast` pattern matcher below reads the source text, and the tables are reported as lost in any case.
 
 An edited precision, width, chunk size or a new printer override changes the generated Lean file, and the
 theorems of ShelxProps/C01.lean that mention it (`extracted_layout`, `extracted_overrides`, `fvar_chunk_pos`) are
 re-checked against what the code says now.
 """
 import ast
+import json
 import re
 import string
+import subprocess
+import sys
+from pathlib import Path
 
 import extract
 
+HERE = Path(__file__).resolve().parent
+
 SPEC_RE = re.compile(r'^(?P<align>[<>^])?(?P<width>\d+)?(?:\.(?P<prec>\d+))?(?P<type>[sfdgn])?$')
-
-KNOWN = dict(
-    isoFmt='[.fld true 5 none, .fld true 2 none, .fld false 10 (some 6), .lit 2, .fld false 10 (some 6), .lit 2, '
-           '.fld false 9 (some 6), .lit 2, .fld false 9 (some 5), .lit 2, .fld false 9 (some 5)]',
-)
-
 
 def parse_format(fmt: str):
     """'{:<5s}{:>2}{:>12.6f} ...' -> list of Lean Piece terms; None if a literal is not blank-only or a spec is unknown"""
@@ -160,9 +167,33 @@ def write(out, fmts, chunk, overrides, qconst):
     extract.write_if_changed(out / 'C01Tables.lean', '\n'.join(lines))
 
 
-@extract.extractor
-def c01_tables(repo, out):
-    lost = []
+def lean_piece(p):
+    if p[0] == 'lit':
+        return f'.lit {int(p[1])}'
+    _, left, width, prec = p
+    return f'.fld {"true" if left else "false"} {int(width)} ' + ('none' if prec is None else f'(some {int(prec)})')
+
+
+def run_probe(repo):
+    """the result of extract/probe_c01.py for the tree, or dict(fatal=why)"""
+    try:
+        p = subprocess.run([sys.executable, str(HERE / 'probe_c01.py'), '--repo', str(repo)],
+                           stdout=subprocess.PIPE, stderr=subprocess.PIPE, text=True, timeout=180,
+                           env={'PATH': '/usr/bin:/bin', 'PYTHONDONTWRITEBYTECODE': '1', 'PYTHONHASHSEED': '0'})
+    except subprocess.TimeoutExpired:
+        return dict(fatal='probe_c01.py did not finish within 180 s')
+    mark = '\nC01-PROBE-RESULT\n'
+    if mark not in p.stdout:
+        return dict(fatal=f'probe_c01.py printed no result (exit {p.returncode}): {p.stderr[-300:]}')
+    try:
+        return json.loads(p.stdout[p.stdout.rindex(mark) + len(mark):])
+    except ValueError as e:
+        return dict(fatal=f'probe_c01.py printed an unreadable result: {e}')
+
+
+def static_reading(repo):
+    """the `ast` pattern matcher (class constants of Atom, `chunks(<list>, <int>)`, class statements of cards.py): only
+    used to keep the generated file populated when the package cannot be imported; never reported as a confirmed reading"""
     atom_tree = extract.parse(repo, 'shelxfile/atoms/atom.py')
     cards_tree = extract.parse(repo, 'shelxfile/shelx/cards.py')
     cls = extract.find(atom_tree, 'Atom')
@@ -170,23 +201,35 @@ def c01_tables(repo, out):
     fmts = {}
     for lean, py in (('isoFmt', '_isoatomstr'), ('anisFmt', '_anisatomstr'), ('qpeakFmt', '_qpeakstr'), ('fragFmt', '_fragatomstr')):
         s = consts.get(py)
-        p = parse_format(s) if s is not None else None
-        if p is None:
-            lost.append(dict(props=['C01'], what=f'Atom.{py} is no longer a format string of blank-separated fixed fields: {s!r}'))
-            p = []
-        fmts[lean] = p
-    chunk = find_chunk(cards_tree)
-    if chunk is None:
-        lost.append(dict(props=['C01'], what='FVARs.__str__: chunks(<list>, <int constant>) not found'))
+        fmts[lean] = (parse_format(s) if s is not None else None) or []
     overrides = str_overrides(cards_tree)
-    acls = extract.find(atom_tree, 'Atom')
-    if acls is not None and any(isinstance(m, ast.FunctionDef) and m.name == '__str__' for m in acls.body):
+    if cls is not None and any(isinstance(m, ast.FunctionDef) and m.name == '__str__' for m in cls.body):
         overrides = sorted(overrides + ['Atom'])
     qc = qpeak_const(atom_tree)
-    if qc == 'lost':
-        lost.append(dict(props=['C01'], what='Atom.__str__: call of _qpeakstr.format with 8 arguments not found'))
-        qc = None
-    write(out, fmts, chunk, overrides, qc)
+    return fmts, find_chunk(cards_tree), overrides, (None if qc == 'lost' else qc)
+
+
+LAYOUTS = (('isoFmt', 'iso'), ('anisFmt', 'anis'), ('qpeakFmt', 'qpeak'), ('fragFmt', 'frag'))
+
+
+@extract.extractor
+def c01_tables(repo, out):
+    lost = []
+    r = run_probe(repo)
+    if 'fatal' in r:
+        lost.append(dict(props=['C01'], what=f'C01 tables: the code cannot be probed: {r["fatal"]}'))
+        try:
+            fmts, chunk, overrides, qc = static_reading(repo)
+        except Exception:
+            fmts, chunk, overrides, qc = {}, None, [], None
+        write(out, fmts, chunk, overrides, qc)
+        return lost
+    for what in r.get('lost', []):
+        lost.append(dict(props=['C01'], what=what))
+    fmts = {lean: [lean_piece(p) for p in r.get('fmts', {}).get(key) or []] for lean, key in LAYOUTS}
+    qc = r.get('qconst')
+    qc = None if qc in (None, 'lost') else qc
+    write(out, fmts, r.get('chunk'), r.get('overrides') or [], qc)
     return lost
 
 
